@@ -86,6 +86,13 @@ class Report:
     def info(self, msg: str) -> None:
         self.infos.append(msg)
 
+    def adopt_rules(self, other: "Report", rule: str, only: List[str]) -> int:
+        """Adopt the obligations of the listed rules of a sub-analysis under *rule*; returns how many."""
+        sub = Report(other.prop, other.tier)
+        sub.obligations = [ob for ob in other.obligations if ob.rule in only]
+        self.adopt(sub, rule)
+        return len(sub.obligations)
+
     def adopt(self, other: "Report", rule: str) -> None:
         """Take over the obligations of a sub-analysis (a rule shared with another property) under *rule*."""
         for ob in other.obligations:
